@@ -983,7 +983,7 @@ def b_diagnose(actual, base, path):
     return "other-attr"
 
 
-def b_check_render(case, tree, widget, stats, label):
+def b_check_render(case, tree, widget, stats, label, keep=None):
     import urwid
 
     out = []
@@ -994,6 +994,8 @@ def b_check_render(case, tree, widget, stats, label):
 
     width, focus = case["w"], case["focus"]
     canv = widget.render((width,), focus=focus)
+    if keep is not None:
+        keep.append(canv)  # CanvasCache holds canvases weakly: keep the first render alive across the mutation
     extra = []
     if case["canvas_ops"] and label == "first":
         canv = urwid.CompositeCanvas(canv)
@@ -1063,7 +1065,8 @@ def b_eval(case, stats=None):
         maps = []
         try:
             widget = b_build(tree, {}, maps)
-            res, judged = b_check_render(case, tree, widget, stats, "first")
+            keep = []
+            res, judged = b_check_render(case, tree, widget, stats, "first", keep)
         except Exception as e:  # noqa: BLE001
             import traceback
 
